@@ -28,7 +28,10 @@ def generate(ctx, families=GEN_FAMILIES, deep=None):
     for fam, (q, t) in families.items():
         def job(fam=fam, ov=(t if thorough else q)):
             cfg = fam.split(":")[0]
-            return ctx.tlc("GenProg", cfg, name=fam.replace(":", "_"), overrides=ov, workers=4, timeout=3000)["out"]
+            module = "GenProg"
+            if "/" in cfg:
+                module, cfg = cfg.split("/")
+            return ctx.tlc(module, cfg, name=fam.replace(":", "_").replace("/", "_"), overrides=ov, workers=4, timeout=3000)["out"]
         jobs.append(job)
     outs = ctx.parallel(jobs, width=4)
     if deep:
@@ -72,14 +75,14 @@ def prog_like(ctx, prop, families=GEN_FAMILIES, deep=True, trace=False, soups=0,
 def corrupt_fams(thorough):
     if thorough:
         return {
-            "gen_corrupt:operators": {"BaseFamily": '"operators"', "EditMenu": 22},
-            "gen_corrupt:positions": {"BaseFamily": '"positions"', "EditMenu": 22},
-            "gen_corrupt:pipelines": {"BaseFamily": '"pipelines"', "EditMenu": 10, "Bound": 2},
-            "gen_corrupt:statements": {"BaseFamily": '"statements"', "EditMenu": 22, "Bound": 3},
+            "ParseCheck/parse_corrupt:operators": {"BaseFamily": '"operators"', "EditMenu": 22},
+            "ParseCheck/parse_corrupt:positions": {"BaseFamily": '"positions"', "EditMenu": 22},
+            "ParseCheck/parse_corrupt:pipelines": {"BaseFamily": '"pipelines"', "EditMenu": 10, "Bound": 2},
+            "ParseCheck/parse_corrupt:statements": {"BaseFamily": '"statements"', "EditMenu": 22, "Bound": 3},
         }
     return {
-        "gen_corrupt:operators": {"BaseFamily": '"operators"', "EditMenu": 22},
-        "gen_corrupt:positions": {"BaseFamily": '"positions"', "EditMenu": 4},
+        "ParseCheck/parse_corrupt:operators": {"BaseFamily": '"operators"', "EditMenu": 22},
+        "ParseCheck/parse_corrupt:positions": {"BaseFamily": '"positions"', "EditMenu": 4},
     }
 
 
@@ -91,6 +94,35 @@ def fam(ctx, names, extra=None):
     return out
 
 
+PARSE_FAMILIES = ["parse_operators", "parse_positions", "parse_exprpairs", "parse_exprtriples", "parse_unary",
+                  "parse_pipelines", "parse_statements", "parse_plant", "parse_scope"]
+
+
+def parse_design(ctx):
+    """ParseMachine = Grammar on every tree family (design level; no CASE output)."""
+    thorough = ctx.tier == "thorough"
+    jobs = []
+    for cfg in PARSE_FAMILIES:
+        ov = {}
+        if cfg == "parse_exprpairs" and thorough:
+            ov = {"DecoMode": '"all"'}
+        if cfg == "parse_pipelines":
+            ov = {"Bound": 3 if thorough else 2}
+        if cfg == "parse_statements":
+            ov = {"Bound": 5 if thorough else 3}
+
+        def job(cfg=cfg, ov=ov):
+            info = ctx.tlc("ParseCheck", cfg, overrides=ov, workers=4, timeout=3000)
+            os.unlink(info["out"])
+        jobs.append(job)
+    ctx.parallel(jobs, width=4)
+
+
+def run_c07(ctx):
+    parse_design(ctx)
+    return prog_like(ctx, "C07", trace=True)
+
+
 def run_c08(ctx):
     thorough = ctx.tier == "thorough"
     fams = fam(ctx, ["gen_operators", "gen_positions", "gen_pipelines", "gen_statements"], corrupt_fams(thorough))
@@ -99,8 +131,8 @@ def run_c08(ctx):
 
 def run_c12(ctx):
     thorough = ctx.tier == "thorough"
-    extra = {"gen_stress": {"Bound": 2000 if thorough else 500}, "gen_plant": {}}
-    extra.update(corrupt_fams(thorough) if thorough else {"gen_corrupt:operators": {"BaseFamily": '"operators"', "EditMenu": 4}})
+    extra = {"ParseCheck/parse_stress": {"Bound": 2000 if thorough else 500}, "gen_plant": {}}
+    extra.update(corrupt_fams(thorough) if thorough else {"ParseCheck/parse_corrupt:operators": {"BaseFamily": '"operators"', "EditMenu": 4}})
     fams = fam(ctx, list(GEN_FAMILIES), extra)
     return prog_like(ctx, "C12", fams, deep=True, soups=500000 if thorough else 40000, layouts=3 if not thorough else 4)
 
@@ -108,15 +140,15 @@ def run_c12(ctx):
 def run_c13(ctx):
     thorough = ctx.tier == "thorough"
     extra = {"gen_plant": {}}
-    extra.update({"gen_corrupt:operators": {"BaseFamily": '"operators"', "EditMenu": 22 if thorough else 4}})
+    extra.update({"ParseCheck/parse_corrupt:operators": {"BaseFamily": '"operators"', "EditMenu": 22 if thorough else 4}})
     fams = fam(ctx, list(GEN_FAMILIES), extra)
     return prog_like(ctx, "C13", fams, deep=True, soups=100000 if thorough else 10000, layouts=6 if thorough else 3)
 
 
 CHECKS = {
-    "C07": {"run": lambda ctx: prog_like(ctx, "C07", trace=True), "level": "model_checking"},
+    "C07": {"run": lambda ctx: run_c07(ctx), "level": "model_checking"},
     "C08": {"run": run_c08, "level": "model_checking"},
-    "C10": {"run": lambda ctx: prog_like(ctx, "C10", fam(ctx, list(GEN_FAMILIES), {"gen_plant": {}, "gen_corrupt:operators": {"BaseFamily": '"operators"', "EditMenu": 22 if ctx.tier == "thorough" else 4}}), soups=200000 if ctx.tier == "thorough" else 20000), "level": "model_checking"},
+    "C10": {"run": lambda ctx: prog_like(ctx, "C10", fam(ctx, list(GEN_FAMILIES), {"gen_plant": {}, "ParseCheck/parse_corrupt:operators": {"BaseFamily": '"operators"', "EditMenu": 22 if ctx.tier == "thorough" else 4}}), soups=200000 if ctx.tier == "thorough" else 20000), "level": "model_checking"},
     "C11": {"run": lambda ctx: prog_like(ctx, "C11"), "level": "model_checking"},
     "C12": {"run": run_c12, "level": "model_checking"},
     "C13": {"run": run_c13, "level": "model_checking"},
